@@ -48,6 +48,16 @@ def main():
         arrs[k][idx] = complex(*val) if isinstance(val, list) else val
     if case.get("truncate"):
         arrs = [a[:case["truncate"]].copy() for a in arrs]
+    form = case.get("array_form")
+    if form == "noncontiguous":           # every second element of a twice-as-long buffer
+        arrs = [np.repeat(a, 2)[::2] for a in arrs]
+    elif form == "float32_radius":
+        arrs[0] = arrs[0].astype(np.float32)
+    elif form == "fortran_2d_slice":
+        arrs = [np.asfortranarray(np.vstack([a, a]))[0] for a in arrs]
+    elif form == "readonly":
+        for a in arrs:
+            a.flags.writeable = False
     before = [a.copy() for a in arrs]
     kw = dict(degree_l=case.get("l", 2), solve_for=tuple(case["solve_for"]) if isinstance(case.get("solve_for"), list) and not case.get("solve_for_as_list") else case.get("solve_for"),
               use_kamata=case.get("use_kamata", False), integration_method=case.get("method", "RK45"), integration_rtol=case.get("rtol", 1e-6),
